@@ -123,10 +123,10 @@ theorem code_constants_admissible : 1 ≤ Gen.maxBucketSize ∧ Gen.idWidth % 8 
     node, updates an address and removes bad nodes; the hypotheses of the theorems hold for it and the resulting table
     is what the statements talk about. -/
 def exOps : List Op :=
-  [.add ⟨[true, false, false, false], false, 1, 1, 0⟩, .add ⟨[true, true, false, false], false, 1, 2, 1⟩,
-   .add ⟨[false, true, false, false], true, 1, 3, 2⟩, .add ⟨[true, false, true, true], false, 1, 4, 3⟩,
-   .add ⟨[false, false, false, true], false, 1, 5, 4⟩, .add ⟨[false, false, true, true], false, 1, 6, 5⟩,
-   .setNode [true, true, false, false] true 7, .add ⟨[true, false, false, false], false, 9, 99, 6⟩, .removeBad]
+  [.add ⟨[true, false, false, false], 0, true, 1, 1, 0⟩, .add ⟨[true, true, false, false], 1, false, 1, 2, 1⟩,
+   .add ⟨[false, true, false, false], 2, true, 1, 3, 2⟩, .add ⟨[true, false, true, true], 0, false, 1, 4, 3⟩,
+   .add ⟨[false, false, false, true], 0, true, 1, 5, 4⟩, .add ⟨[false, false, true, true], 1, true, 1, 6, 5⟩,
+   .setNode [true, true, false, false] 3 true 7, .add ⟨[true, false, false, false], 0, true, 9, 99, 6⟩, .removeBad]
 
 /-- (non-vacuity) the example history is a valid history of width 4 -/
 theorem example_history_valid : ValidHistory 4 exOps := by
@@ -214,5 +214,40 @@ example : (liveAll (run 2 (RT.init [true, false, true, false]) exOps) none).map 
 example : ((run 2 (RT.init [true, false, true, false]) exOps).closest [true, false, false, true] 3 none).length = 3 := by
   rw [(closest_count (m := 2) (w := 4) (by decide) _ exOps example_history_valid [true, false, false, true] rfl 3 none).1]
   decide
+
+/-- What "live" means: a node is BAD exactly when it failed `badFailedThreshold` (2 in the code) or more queries in a
+    row — whatever its last contact was (`recent`).  Re-proved against the regenerated status codes and threshold. -/
+theorem bad_iff_failed (n : Node) : n.bad = true ↔ Gen.badFailedThreshold ≤ n.failed := by
+  unfold Node.bad Node.status
+  by_cases h : n.failed ≥ Gen.badFailedThreshold
+  · simp [h]
+  · have h' : ¬ Gen.badFailedThreshold ≤ n.failed := h
+    cases hr : n.recent <;> simp [h, Gen.statusGood, Gen.statusBad, Gen.statusUnknown]
+
+/-- ... hence the nodes a closest-nodes query may return are exactly those below the failure threshold (and not
+    excluded), and every returned node is below it — even one that answered a moment ago before failing. -/
+theorem closest_only_unfailed (hm : 1 ≤ m) (me : Bits) (ops : List Op) (hv : ValidHistory w ops)
+    (target : Bits) (ht : target.length = w) (k : Nat) (excl : Option Bits) :
+    ∀ x ∈ (run m (RT.init me) ops).closest target k excl, x.failed < Gen.badFailedThreshold := by
+  intro x hx
+  have hb := ((closest_count hm me ops hv target ht k excl).2 x hx).2.1
+  have : ¬ Gen.badFailedThreshold ≤ x.failed := fun h => by simp [(bad_iff_failed x).mpr h] at hb
+  omega
+
+/-- `remove_bad_nodes` leaves no node at or above the failure threshold in the table and returns only such nodes. -/
+theorem remove_bad_removes_failed (rt : RT) :
+    (∀ x ∈ rt.removeBad.1.allNodes, x.failed < Gen.badFailedThreshold) ∧
+    (∀ x ∈ rt.removeBad.2, Gen.badFailedThreshold ≤ x.failed) := by
+  constructor
+  · intro x hx
+    simp only [RT.removeBad, RT.allNodes, RT.buckets, Trie.values_mapVals, List.mem_flatMap, List.mem_map] at hx
+    obtain ⟨b, ⟨b0, _, rfl⟩, hx⟩ := hx
+    have hb : x.bad = false := by simpa using (List.mem_filter.mp hx).2
+    have : ¬ Gen.badFailedThreshold ≤ x.failed := fun h => by simp [(bad_iff_failed x).mpr h] at hb
+    omega
+  · intro x hx
+    simp only [RT.removeBad, List.mem_flatMap] at hx
+    obtain ⟨b, _, hx⟩ := hx
+    exact (bad_iff_failed x).mp (List.mem_filter.mp hx).2
 
 end Ipv8.C14
